@@ -66,6 +66,8 @@ class TextData(Data):
 
         if isinstance(values, np.ndarray) and values.dtype.kind == "S":
             values = np.char.decode(values, "utf-8")
+        elif isinstance(values, np.ndarray):
+            values = values.copy()
 
         if (not isinstance(values, (str, type(None), np.ndarray))) or (
             isinstance(values, np.ndarray) and values.dtype.kind not in ["U", "S"]
